@@ -1,5 +1,6 @@
 import ComposeVerif.Lemmas.EnvLayers
 import ComposeVerif.Lemmas.EnvLayersDotenv
+import ComposeVerif.Lemmas.EnvLayersFail
 import ComposeVerif.Neg.C16
 /-!
 # C16 — service environment and labels are layered with the documented precedence
@@ -313,6 +314,45 @@ theorem missing_label_file_err (fs : FS) (discard : Bool) (s : Service) (p : Str
         · exact ih _ hmem'
   obtain ⟨e, he⟩ := key s.labelFiles [] hp
   exact ⟨e, by simp [resolveServiceLabels, he]⟩
+
+/-! ## which file fails -/
+
+/-- **env_failure_spec.**  Environment resolution of a service succeeds iff the specification `envFailureFrom` finds no
+    failing file, and otherwise fails with exactly the error of the **first** failing file in `env_file` order: missing though
+    required (`notFound`), a directory (`read`), a format (`format`), a rejected line (`parse`), or a value whose template is an
+    error of the interpolation grammar — e.g. an unsatisfied `${X:?msg}` — judged in that line's lookup chain (earlier files,
+    project environment, earlier lines) (`template`). -/
+theorem env_failure_spec (penv : List (Key × Str)) (fs : FS) (discard : Bool) (s : Service) (hwf : WFFS fs) :
+    FailsAs (resolveServiceEnv penv fs discard s) (envFailureFrom penv fs [] s.envFiles) := by
+  have h := loadEnvFiles_fails_as penv fs hwf s.envFiles [] [] distinct_nil (fun _ => rfl)
+  unfold resolveServiceEnv
+  cases hl : loadEnvFiles penv fs s.envFiles [] with
+  | error e => rw [hl] at h; exact h
+  | ok acc => rw [hl] at h; exact h
+
+/-- **labels_failure_spec.**  The same for label files (a missing label file always fails; references see earlier label
+    files and earlier lines only). -/
+theorem labels_failure_spec (fs : FS) (discard : Bool) (s : Service) (hwf : WFFS fs) :
+    FailsAs (resolveServiceLabels fs discard s) (labelFailureFrom fs [] s.labelFiles) := by
+  have h := loadLabelFiles_fails_as fs hwf s.labelFiles [] [] distinct_nil (fun _ => rfl)
+  unfold resolveServiceLabels
+  cases hl : loadLabelFiles fs s.labelFiles [] with
+  | error e => rw [hl] at h; exact h
+  | ok acc => rw [hl] at h; exact h
+
+/-- a line `k=${x:?msg}` whose variable is unset in the line's lookup chain fails the file with `template` … -/
+theorem unsatisfied_required_var_fails (look : Look) (pre post : List Line) (k x m : Str)
+    (hx : lineLook look pre x = none) :
+    fileFailureFrom look pre (Line.assign k [CV.Template.Seg.op x .colonQ [.lit m]] :: post) = some .template := by
+  simp [fileFailureFrom, CV.Template.evalL, CV.Template.Seg.eval, CV.Template.opSpec, hx]
+
+/-- … and does not when an earlier file, the project environment or an earlier line gives it a non-empty value -/
+theorem satisfied_required_var_passes (look : Look) (pre post : List Line) (k x m v : Str)
+    (hx : lineLook look pre x = some v) (hv : v ≠ []) :
+    fileFailureFrom look pre (Line.assign k [CV.Template.Seg.op x .colonQ [.lit m]] :: post) =
+      fileFailureFrom look (pre ++ [Line.assign k [CV.Template.Seg.op x .colonQ [.lit m]]]) post := by
+  have : (some v == some ([] : Str)) = false := by simp [hv]
+  simp [fileFailureFrom, CV.Template.evalL, CV.Template.Seg.eval, CV.Template.opSpec, hx, this]
 
 /-! ## discarding the file references -/
 
@@ -663,6 +703,17 @@ example : CV.Dotenv.WF (toDotenvLines [.assign ['A'] [.lit ['1']], .bad, .assign
     renderText [.assign ['A'] [.lit ['1']], .bad, .assign ['D'] [.lit ['d']]] =
       ['A', '=', '1', '\n', 'A', ' ', 'B', '=', '1', '\n', 'D', '=', 'd', '\n'] ∧
     parseLines (fun _ => none) [.assign ['A'] [.lit ['1']], .bad, .assign ['D'] [.lit ['d']]] [] = .error .parse := by
+  decide
+
+/-- `env_failure_spec` on concrete files: `f1` sets `A`; a second file requires `A` (satisfied through the earlier file) and
+    `NOPE` (unsatisfied): the service fails at that file with `template`, and the specification says so -/
+example :
+    let fsq : FS := fun p => if p = ['f', '1'] then some (.file f1)
+      else if p = ['q'] then some (.file [.assign ['X'] [.op ['A'] .colonQ [.lit ['m']]], .assign ['Y'] [.op ['N', 'O', 'P', 'E'] .q [.lit ['m']]]])
+      else none
+    (resolveServiceEnv penv0 fsq false { s0 with envFiles := [⟨['f', '1'], true, []⟩, ⟨['q'], true, []⟩, ⟨['z'], true, []⟩] }).map (·.environment)
+      = .error .template ∧
+    envFailureFrom penv0 fsq [] [⟨['f', '1'], true, []⟩, ⟨['q'], true, []⟩, ⟨['z'], true, []⟩] = some .template := by
   decide
 
 /-- hypotheses of `later_file_wins` hold: `f2` is the last file, gives `A` a value, `environment` does not mention `A` -/
